@@ -408,12 +408,22 @@ class Function:
                 return self._node_block[a.i]
         return None
 
+    def branch_cond(self, blk):
+        """the sub-expression that decides the branch at the end of this block. clang reports the whole `A && B` as the
+        condition of the block that evaluates only B (A was decided in an earlier block): descend to the right-most operand."""
+        cond = self.nodes.get(blk.cond) if blk.cond is not None else None
+        while cond is not None and cond.k == 'BinaryOperator' and cond.o in ('&&', '||') and len(cond.c) == 2:
+            cond = cond.c[1]
+            while cond.k in ('CXXStaticCastExpr', 'CStyleCastExpr', 'CXXFunctionalCastExpr') and cond.c:
+                cond = cond.c[0]
+        return cond
+
     def edge_label(self, b, idx):
         """(condition node, outcome) of the idx-th successor edge of block b; outcome True/False, or ('case', v) / 'default'"""
         blk = self.blocks[b]
         if blk.cond is None or len(blk.succ) < 2:
             return None
-        cond = self.nodes.get(blk.cond)
+        cond = self.branch_cond(blk)
         if blk.tk == 'SwitchStmt':
             s = blk.succ[idx]
             if s < 0:
@@ -567,6 +577,7 @@ class Facts:
         self.functions = []
         self.classes = []
         self.enums = []
+        self.dup_headers = []
         self.n_lines = 0
         self.unit_summary = {}
         rx = re.compile(select) if isinstance(select, str) else None
@@ -582,6 +593,12 @@ class Facts:
                         if rx is not None and not rx.search(q):
                             continue
                         if callable(select) and not select(q):
+                            continue
+                        if line.startswith('"kind":"dup"', end + 2):
+                            r = json.loads(line)
+                            r['hdr']['q'] = q
+                            r['hdr']['unit'] = u
+                            self.dup_headers.append(r['hdr'])
                             continue
                         bi = line.find('"body":')
                         hk = (q, hash(line[bi:]))
